@@ -3,7 +3,7 @@ import json, math, os, time
 import numpy as np
 import common, extract, libgen, fitlib, oracle_mdl
 
-LEAN_MODULE = "ESRVerif.Props.C04"
+LEAN_MODULE = ["ESRVerif.Props.C04", "ESRVerif.Props.C04b"]
 LEVEL = "other"
 LEVEL_TEXT = ("Partial proof (machine-checked composition). Proved in Lean over the C06 model of combine_DL, for tables of any size and any rank count: "
               "every row with a finite description length reports exactly the sum of its three reported terms; the first row of the final table is not "
@@ -297,15 +297,13 @@ def _report_rows(ctx, job, bad, what_run):
     for st in ("fit", "fisher", "match"):
         for b in bad[st]:
             early.setdefault(b["fcn"], b)
+    first = ([b for st in ("fit", "fisher", "match") for b in bad[st]] or [None])[0]       # earliest stage file with such a row
     for b in bad["final"]:
-        first = None
-        for st in ("fit", "fisher", "match"):
-            if bad[st]:
-                first = bad[st][0] if first is None else first
-        src = early.get(b["fcn"]) or first
+        src = first or early.get(b["fcn"])
         loc = ""
         if src:
-            loc = "; first seen in the %s stage file, row %d (%s at %s: reported %.9g, recomputed %.9g)" % (src["stage"], src["row"], src["fcn"], src["params"], src["reported"], src["recomputed"])
+            loc = "; earliest stage file with a row that is not reproducible: %s stage, row %d (%s at %s: reported %.9g, recomputed %.9g); such rows per stage: fit %d, Fisher %d, match %d, final %d" % (
+                src["stage"], src["row"], src["fcn"], src["params"], src["reported"], src["recomputed"], len(bad["fit"]), len(bad["fisher"]), len(bad["match"]), len(bad["final"]))
         ctx.fail("row-not-reproducible", "%s: final row %d: %s at the reported parameters %s has -logL %.9g (independent evaluator), reported %.9g (tolerance %.3g)%s" % (
             what_run, b["row"], b["fcn"], b["params"], b["recomputed"], b["reported"], b["tol"], loc), dict(rp, row=b))
     if not bad["final"]:
@@ -321,6 +319,8 @@ def _report_rows(ctx, job, bad, what_run):
 # Option space x multimodal fits: log_opt in {False, True}, a periodic basis, a planted frequency
 # --------------------------------------------------------------------------------------------------------------------
 OPT_X = np.linspace(0.3, 3.0, 16)
+OPT_TMAX = 60          # per-function time limit of the fitting stage in these runs: with the default 5 s a loaded machine cuts the multi-start
+                       # of a two-parameter function short (TimeoutException handler), which would make the outcome depend on the load
 
 
 def _prepare_opt(ctx, lib, basis, comp, truth, theta, noise, seed, P, kw):
@@ -329,7 +329,9 @@ def _prepare_opt(ctx, lib, basis, comp, truth, theta, noise, seed, P, kw):
     x = OPT_X.copy()
     s = np.full(x.shape, noise)
     y = _str_value(truth, x, theta) + rs.normal(0, noise, x.shape)
-    fit = (kw or {}).get("fit", {})
+    kw = dict(kw or {})
+    kw["fit"] = dict(kw.get("fit", {}), tmax=OPT_TMAX)
+    fit = kw["fit"]
     tag = "c04o_%s_%d_%d_%s" % (lib["name"][-6:], comp, seed, "".join("%s%s" % (k[0], str(v)[0]) for k, v in sorted(fit.items())))
     dd = os.path.join(ctx.tmp, tag); os.makedirs(dd, exist_ok=True)
     fitlib.write_data(os.path.join(dd, "d.txt"), x, y, s)
